@@ -2,19 +2,8 @@
 
 
 def classify(case):
-    """the recorded finding: the administrator asks for a hold ending exactly at the current clock value. Only the
-    dedicated minimal scenario (one snap, nothing but ticks around the request) is keyed, so that any other
-    violation is still reported."""
-    i = case.get("input") or {}
-    ops = i.get("ops") or []
-    if i.get("n") != 1 or not all(o.get("k") in ("tick", "syshold") for o in ops):
-        return None
-    now = 0
-    for op in ops:
-        if op.get("k") == "tick":
-            now += op.get("d", 0)
-        elif op.get("k") == "syshold" and not op.get("forever") and op.get("t", 0) == now:
-            return "system-hold-until-now"
+    """no recorded finding: the former class system-hold-until-now is repaired in /repo (commit c2c6542, `fixed:` line in
+    KNOWN_FINDINGS); its witness history stays in the driver as a regression case and a recurrence is a VIOLATION"""
     return None
 
 
@@ -34,7 +23,7 @@ SPEC = dict(
     rule=("histories of 6-25 operations on 2-4 installed snaps run against the real HoldRefresh / HoldRefreshesBySystem / "
           "ProceedWithRefresh / resetGatingForRefreshed / HeldSnaps with the package clock (timeNow) and LastRefreshTime set by the "
           "driver; after EVERY operation the snaps-hold table (first-held, hold-until, level), HeldSnaps at both levels, the "
-          "result (remaining duration / refused) and the clock are recorded. Fixed part: the finding scenario; snap 1 holding "
+          "result (remaining duration / refused) and the clock are recorded. Fixed part: the regression history of the repaired system-hold-until-now defect; snap 1 holding "
           "itself and snap 2 three times with every pair of waits from {1ns,47h,48h-1ns,48h,48h+1ns,10d} for three initial "
           "last-refresh times (108 histories); self holds around the 90 day bound; system holds (timed and forever) across a "
           "refresh; the explicit-duration witness. Random part: op mix hold 36% / system hold 10% / proceed 8% / refresh 10% / "
@@ -56,6 +45,7 @@ SPEC = dict(
         "property states; a gating snap that is refused and asks again later starts a new episode",
         "resetGatingForRefreshed is modelled for one snap per call (its only call site); pruneGating, pruneSnapsHold (snap removal) are "
         "not operations of the model: both only delete entries, which preserves every invariant proved",
-        "KNOWN FINDING system-hold-until-now: C15_system_hold is guarded by `requested time <> current instant`",
+        "a system hold requested to end at exactly the current instant is an already expired hold (not reported at that instant "
+        "either): the convention of the repair c2c6542; the monitor demands it, C15_system_hold states the exact end",
     ],
 )
